@@ -188,7 +188,7 @@ def judge_drift(case):
     return core.result("returned" if st == "ok" else "raised:" + type(r).__name__, digest=core.digest_of(case), traces=1, states=case["steps"], transitions=case["steps"])
 
 
-ENTRY_POINTS = ["ideal_iso", "ideal_noniso", "nonideal_iso", "nonideal_noniso", "ideal_curve", "nonideal_curve", "permeate_composition", "separation_factor"]
+ENTRY_POINTS = ["ideal_iso", "ideal_noniso", "nonideal_iso", "nonideal_noniso", "ideal_curve", "nonideal_curve", "permeate_composition", "separation_factor", "solver_again_on_same_object"]
 
 
 def judge_entry_point(case):
@@ -224,6 +224,15 @@ def judge_entry_point(case):
         elif ep == "nonideal_curve":
             st, r = core.call(pv.non_ideal_diffusion_curve, diffusion_curve_set=cs, feed_temperature=t, initial_feed_composition=comp, delta_composition=1e-9,
                               number_of_steps=1, initial_permeances=perms, precision=prec, calculation_type=model, **kw)
+        elif ep == "solver_again_on_same_object":
+            # history: the very object has just been through a calculation that did not converge (it raised, or was bounded); the same
+            # question, then a neighbouring one, asked again on that object must still finish
+            for rep_ in range(3):
+                pv.observe(budget=B)
+                st, r = core.call(pv.calculate_partial_fluxes, feed_temperature=t, composition=U.Composition(p=x if rep_ < 2 else min(x * 1.0001, 1.0), type="weight"),
+                                  precision=prec, first_component_permeance=perms[0], second_component_permeance=perms[1], calculation_type=model, **kw)
+                if st == "raise" and isinstance(r, (solver.Lasso, solver.Budget)):
+                    break
         elif ep == "permeate_composition":
             st, r = core.call(pv.calculate_permeate_composition, feed_temperature=t, composition=comp, precision=prec, calculation_type=model, **kw)
         else:
